@@ -150,6 +150,10 @@ func (b *Batch) Delete(key []byte) error {
 	b.mu.Lock()
 	defer b.mu.Unlock()
 
+	if b.committed {
+		return ErrBatchCommitted
+	}
+
 	logRecord := b.findPendingRecord(key)
 
 	// 缓存命中, 直接操作缓存
@@ -184,6 +188,14 @@ func (b *Batch) Delete(key []byte) error {
 }
 
 func (b *Batch) Commit() error {
+	// 已提交的批处理不再持有 DB 锁, 不允许重复解锁
+	b.mu.RLock()
+	if b.committed {
+		b.mu.RUnlock()
+		return ErrBatchCommitted
+	}
+	b.mu.RUnlock()
+
 	// 提交后允许操作 DB 实例
 	defer b.db.mu.Unlock()
 
@@ -191,6 +203,7 @@ func (b *Batch) Commit() error {
 	defer b.mu.Unlock()
 
 	if len(b.staged) == 0 {
+		b.committed = true
 		return nil
 	}
 	if b.committed {
